@@ -5,6 +5,8 @@ import random
 
 KEYS = ["a", "b", "c", "d", "kind", "type"]
 LITS = ["x", "y", "ab", "c"]
+# string literals that need escaping when they are printed again (quotes, backslashes, line breaks, a tab, a quote-like character)
+HOSTILE_LITS = ["C:\\temp", "q\"t", "l1\nl2", "t\tb", "it's", "a\\", "`b`", "${x}"]
 
 
 def q(s):
@@ -90,7 +92,7 @@ class TsGen:
         if k < 0.42: return ("bool",)
         if k < 0.48: return ("null",)
         if k < 0.52: return ("undefined",)
-        if k < 0.66: return ("lit", r.choice(LITS))
+        if k < 0.66: return ("lit", r.choice(LITS) if r.random() < 0.85 else r.choice(HOSTILE_LITS))
         if k < 0.74: return ("lit", r.choice([0, 1, 2, 7]))
         if k < 0.78: return ("lit", r.random() < 0.5)
         if k < 0.82: return ("any",)
